@@ -1536,17 +1536,21 @@ func (bf *boundsFn) prove(fs *factSet, a, b bterm, k int64, depth int) bool {
 // ---------- obligations ----------
 
 type boundOb struct {
-	in   ssa.Instruction
-	kind string // index | slice
-	expr string
-	ok   bool
-	why  string
+	in    ssa.Instruction
+	kind  string // index | slice
+	expr  string
+	nexpr string // name-free rendering of the same expression
+	ok    bool
+	why   string
 }
 
 func (bf *boundsFn) obligations() []boundOb {
 	var out []boundOb
 	add := func(in ssa.Instruction, kind, expr, clause string, ok bool) {
-		out = append(out, boundOb{in, kind, expr, ok, clause})
+		bf.c.normPath = true
+		nexpr := bf.c.path(in.(ssa.Value))
+		bf.c.normPath = false
+		out = append(out, boundOb{in, kind, expr, nexpr, ok, clause})
 	}
 	for _, b := range bf.fn.Blocks {
 		for _, in := range b.Instrs {
@@ -1927,17 +1931,22 @@ func (bf *boundsFn) summaryFacts(call *ssa.Call, ind int, fs *factSet) {
 
 // obKeys assigns stable keys: fn|kind|expr#n|clause (n = ordinal of the instruction among
 // equal expressions of the function, by position). No line numbers.
-func obKeys(c *Ctx, fn *ssa.Function, obs []boundOb) []string {
+func obKeys(c *Ctx, fn *ssa.Function, obs []boundOb) ([]string, []string) {
 	sort.SliceStable(obs, func(i, j int) bool { return obs[i].in.Pos() < obs[j].in.Pos() })
 	cnt := map[string]int{}
 	ord := map[ssa.Instruction]int{}
+	ncnt := map[string]int{}
+	nord := map[ssa.Instruction]int{}
 	keys := make([]string, len(obs))
-	for i, o := range obs {
-		e := o.expr
+	nkeys := make([]string, len(obs))
+	trunc := func(e string) string {
 		if r := []rune(e); len(r) > 140 {
-			e = string(r[:140]) + "…"
+			return string(r[:140]) + "…"
 		}
-		k := c.fnName(fn) + "|" + o.kind + "|" + e
+		return e
+	}
+	for i, o := range obs {
+		k := c.fnName(fn) + "|" + o.kind + "|" + trunc(o.expr)
 		n, ok := ord[o.in]
 		if !ok {
 			cnt[k]++
@@ -1945,6 +1954,14 @@ func obKeys(c *Ctx, fn *ssa.Function, obs []boundOb) []string {
 			ord[o.in] = n
 		}
 		keys[i] = fmt.Sprintf("%s#%d|%s", k, n, o.why)
+		nk := c.fnName(fn) + "|" + o.kind + "|" + trunc(o.nexpr)
+		m, ok := nord[o.in]
+		if !ok {
+			ncnt[nk]++
+			m = ncnt[nk]
+			nord[o.in] = m
+		}
+		nkeys[i] = fmt.Sprintf("%s#%d|%s", nk, m, o.why)
 	}
-	return keys
+	return keys, nkeys
 }
